@@ -1,3 +1,445 @@
 package sim
 
-func (k *Kernel) installFS() {}
+import (
+	"errors"
+	"fmt"
+	"io"
+	"os"
+	"path"
+	"sort"
+	"strings"
+	"sync"
+	"syscall"
+
+	"github.com/q191201771/lal/pkg/zzsim"
+	"github.com/q191201771/naza/pkg/filesystemlayer"
+)
+
+// FS is the simulated disk. It backs (a) lal's HLS muxer through naza's IFileSystemLayer seam and
+// (b) the FLV / TS recorders and dump files through the os.Create / os.MkdirAll link seams.
+// It keeps an operation log, can report the tree after every operation (crash points) and injects
+// faults on chosen operations. State survives a simulated crash of the server (Kernel.Crash).
+type FS struct {
+	k     *Kernel
+	mu    sync.Mutex
+	files map[string]*fsNode // cleaned absolute path -> node
+	dirs  map[string]bool
+	Ops   []FsOp
+	// OnOp is called synchronously after every operation (in the calling lal goroutine, with the FS
+	// locked: use the *Locked accessors). It must not panic; record problems and let the driver report.
+	OnOp func(op *FsOp)
+	// faults: operation ordinal (1-based, counted per kind) -> fault
+	faults   []*FsFault
+	Problems []string // oracle problems recorded by OnOp
+	opCount  map[string]int
+	handles  int // open handles
+	osFiles  []string
+}
+
+type fsNode struct {
+	data   []byte
+	open   int
+	Closed bool
+}
+
+type FsOp struct {
+	Seq   int
+	Kind  string // create | write | close | rename | remove | removeall | mkdirall | readfile | writefile | open
+	Path  string
+	Path2 string
+	N     int
+	Err   string
+	Fault string
+}
+
+// FsFault makes the nth operation of a kind (optionally restricted to paths with a suffix) fail.
+type FsFault struct {
+	Kind   string // create | write | close | rename | writefile | remove
+	Suffix string
+	Nth    int    // 1-based among matching operations
+	Mode   string // "error" | "short" (write: half the bytes then error) | "enospc"
+	seen   int
+	Fired  bool
+}
+
+func newFS(k *Kernel) *FS {
+	return &FS{k: k, files: map[string]*fsNode{}, dirs: map[string]bool{"/": true}, opCount: map[string]int{}}
+}
+
+func cleanPath(p string) string {
+	if !strings.HasPrefix(p, "/") {
+		p = "/cwd/" + p
+	}
+	return path.Clean(p)
+}
+
+func (fs *FS) AddFault(f *FsFault) { fs.faults = append(fs.faults, f) }
+
+func (fs *FS) checkFault(kind, p string) *FsFault {
+	for _, f := range fs.faults {
+		if f.Fired || f.Kind != kind || !strings.HasSuffix(p, f.Suffix) {
+			continue
+		}
+		f.seen++
+		if f.seen == f.Nth {
+			f.Fired = true
+			fs.k.mu.Lock()
+			fs.k.Stats.Faults["fs_"+kind+"_"+f.Mode]++
+			fs.k.mu.Unlock()
+			return f
+		}
+	}
+	return nil
+}
+
+func (fs *FS) logOp(op FsOp) {
+	op.Seq = len(fs.Ops) + 1
+	fs.Ops = append(fs.Ops, op)
+	fs.opCount[op.Kind]++
+	if fs.OnOp != nil {
+		fs.OnOp(&fs.Ops[len(fs.Ops)-1])
+	}
+}
+
+func (fs *FS) mkdirAllLocked(p string) {
+	for p != "/" && p != "." {
+		fs.dirs[p] = true
+		p = path.Dir(p)
+	}
+}
+
+var errInjected = errors.New("simfs: injected I/O error")
+
+// ---- operations (shared by both seams) ----
+
+func (fs *FS) create(name string) (*fsFile, error) {
+	p := cleanPath(name)
+	fs.mu.Lock()
+	defer fs.mu.Unlock()
+	if f := fs.checkFault("create", p); f != nil {
+		fs.logOp(FsOp{Kind: "create", Path: p, Err: "injected", Fault: f.Mode})
+		return nil, &os.PathError{Op: "open", Path: name, Err: errInjected}
+	}
+	if !fs.dirs[path.Dir(p)] {
+		fs.logOp(FsOp{Kind: "create", Path: p, Err: "ENOENT"})
+		return nil, &os.PathError{Op: "open", Path: name, Err: syscall.ENOENT}
+	}
+	n := &fsNode{open: 1}
+	fs.files[p] = n
+	fs.handles++
+	fs.logOp(FsOp{Kind: "create", Path: p})
+	return &fsFile{fs: fs, path: p, node: n}, nil
+}
+
+type fsFile struct {
+	fs     *FS
+	path   string
+	node   *fsNode
+	closed bool
+	rdOff  int
+}
+
+func (f *fsFile) Write(b []byte) (int, error) {
+	fs := f.fs
+	fs.mu.Lock()
+	defer fs.mu.Unlock()
+	if f.closed {
+		return 0, os.ErrClosed
+	}
+	if ft := fs.checkFault("write", f.path); ft != nil {
+		n := 0
+		if ft.Mode == "short" {
+			n = len(b) / 2
+			f.node.data = append(f.node.data, b[:n]...)
+		}
+		fs.logOp(FsOp{Kind: "write", Path: f.path, N: n, Err: "injected", Fault: ft.Mode})
+		if ft.Mode == "enospc" {
+			return n, &os.PathError{Op: "write", Path: f.path, Err: syscall.ENOSPC}
+		}
+		return n, &os.PathError{Op: "write", Path: f.path, Err: errInjected}
+	}
+	f.node.data = append(f.node.data, b...)
+	fs.logOp(FsOp{Kind: "write", Path: f.path, N: len(b)})
+	return len(b), nil
+}
+
+func (f *fsFile) Read(b []byte) (int, error) {
+	fs := f.fs
+	fs.mu.Lock()
+	defer fs.mu.Unlock()
+	if f.rdOff >= len(f.node.data) {
+		return 0, io.EOF
+	}
+	n := copy(b, f.node.data[f.rdOff:])
+	f.rdOff += n
+	return n, nil
+}
+
+func (f *fsFile) Close() error {
+	fs := f.fs
+	fs.mu.Lock()
+	defer fs.mu.Unlock()
+	if f.closed {
+		return os.ErrClosed
+	}
+	f.closed = true
+	f.node.open--
+	f.node.Closed = true
+	fs.handles--
+	if ft := fs.checkFault("close", f.path); ft != nil {
+		fs.logOp(FsOp{Kind: "close", Path: f.path, Err: "injected", Fault: ft.Mode})
+		return &os.PathError{Op: "close", Path: f.path, Err: errInjected}
+	}
+	fs.logOp(FsOp{Kind: "close", Path: f.path})
+	return nil
+}
+
+func (fs *FS) Rename(oldpath, newpath string) error {
+	o, n := cleanPath(oldpath), cleanPath(newpath)
+	fs.mu.Lock()
+	defer fs.mu.Unlock()
+	if ft := fs.checkFault("rename", n); ft != nil {
+		fs.logOp(FsOp{Kind: "rename", Path: o, Path2: n, Err: "injected", Fault: ft.Mode})
+		return &os.LinkError{Op: "rename", Old: oldpath, New: newpath, Err: errInjected}
+	}
+	node, ok := fs.files[o]
+	if !ok {
+		fs.logOp(FsOp{Kind: "rename", Path: o, Path2: n, Err: "ENOENT"})
+		return &os.LinkError{Op: "rename", Old: oldpath, New: newpath, Err: syscall.ENOENT}
+	}
+	delete(fs.files, o)
+	fs.files[n] = node
+	fs.logOp(FsOp{Kind: "rename", Path: o, Path2: n})
+	return nil
+}
+
+func (fs *FS) MkdirAll(p string, perm uint32) error {
+	c := cleanPath(p)
+	fs.mu.Lock()
+	defer fs.mu.Unlock()
+	fs.mkdirAllLocked(c)
+	fs.logOp(FsOp{Kind: "mkdirall", Path: c})
+	return nil
+}
+
+func (fs *FS) Remove(name string) error {
+	p := cleanPath(name)
+	fs.mu.Lock()
+	defer fs.mu.Unlock()
+	if ft := fs.checkFault("remove", p); ft != nil {
+		fs.logOp(FsOp{Kind: "remove", Path: p, Err: "injected", Fault: ft.Mode})
+		return &os.PathError{Op: "remove", Path: name, Err: errInjected}
+	}
+	if _, ok := fs.files[p]; !ok {
+		fs.logOp(FsOp{Kind: "remove", Path: p, Err: "ENOENT"})
+		return &os.PathError{Op: "remove", Path: name, Err: syscall.ENOENT}
+	}
+	delete(fs.files, p)
+	fs.logOp(FsOp{Kind: "remove", Path: p})
+	return nil
+}
+
+func (fs *FS) RemoveAll(name string) error {
+	p := cleanPath(name)
+	fs.mu.Lock()
+	defer fs.mu.Unlock()
+	for f := range fs.files {
+		if f == p || strings.HasPrefix(f, p+"/") {
+			delete(fs.files, f)
+		}
+	}
+	for d := range fs.dirs {
+		if d == p || strings.HasPrefix(d, p+"/") {
+			delete(fs.dirs, d)
+		}
+	}
+	fs.logOp(FsOp{Kind: "removeall", Path: p})
+	return nil
+}
+
+func (fs *FS) ReadFile(filename string) ([]byte, error) {
+	p := cleanPath(filename)
+	fs.mu.Lock()
+	defer fs.mu.Unlock()
+	n, ok := fs.files[p]
+	if !ok {
+		fs.logOp(FsOp{Kind: "readfile", Path: p, Err: "ENOENT"})
+		return nil, &os.PathError{Op: "open", Path: filename, Err: syscall.ENOENT}
+	}
+	fs.logOp(FsOp{Kind: "readfile", Path: p, N: len(n.data)})
+	return append([]byte(nil), n.data...), nil
+}
+
+func (fs *FS) WriteFile(filename string, data []byte, perm uint32) error {
+	p := cleanPath(filename)
+	fs.mu.Lock()
+	defer fs.mu.Unlock()
+	if ft := fs.checkFault("writefile", p); ft != nil {
+		if ft.Mode == "short" {
+			fs.files[p] = &fsNode{data: append([]byte(nil), data[:len(data)/2]...), Closed: true}
+		}
+		fs.logOp(FsOp{Kind: "writefile", Path: p, Err: "injected", Fault: ft.Mode})
+		return &os.PathError{Op: "write", Path: filename, Err: errInjected}
+	}
+	if !fs.dirs[path.Dir(p)] {
+		fs.logOp(FsOp{Kind: "writefile", Path: p, Err: "ENOENT"})
+		return &os.PathError{Op: "open", Path: filename, Err: syscall.ENOENT}
+	}
+	fs.files[p] = &fsNode{data: append([]byte(nil), data...), Closed: true}
+	fs.logOp(FsOp{Kind: "writefile", Path: p, N: len(data)})
+	return nil
+}
+
+// ---- naza IFileSystemLayer adapter ----
+
+type fslAdapter struct{ fs *FS }
+
+func (a fslAdapter) Type() filesystemlayer.FslType { return filesystemlayer.FslTypeMemory }
+func (a fslAdapter) Create(name string) (filesystemlayer.IFile, error) {
+	f, err := a.fs.create(name)
+	if err != nil {
+		return nil, err
+	}
+	return f, nil
+}
+func (a fslAdapter) Rename(o, n string) error                 { return a.fs.Rename(o, n) }
+func (a fslAdapter) MkdirAll(p string, perm uint32) error     { return a.fs.MkdirAll(p, perm) }
+func (a fslAdapter) Remove(name string) error                 { return a.fs.Remove(name) }
+func (a fslAdapter) RemoveAll(p string) error                 { return a.fs.RemoveAll(p) }
+func (a fslAdapter) ReadFile(filename string) ([]byte, error) { return a.fs.ReadFile(filename) }
+func (a fslAdapter) WriteFile(filename string, data []byte, perm uint32) error {
+	return a.fs.WriteFile(filename, data, perm)
+}
+
+// Fsl returns the adapter to install into lal's hls package.
+func (fs *FS) Fsl() filesystemlayer.IFileSystemLayer { return fslAdapter{fs} }
+
+// ---- accessors for oracles (driver goroutine; or *Locked from OnOp) ----
+
+func (fs *FS) FileLocked(p string) ([]byte, bool) {
+	n, ok := fs.files[p]
+	if !ok {
+		return nil, false
+	}
+	return n.data, true
+}
+
+func (fs *FS) ListLocked(prefix string) []string {
+	var out []string
+	for f := range fs.files {
+		if strings.HasPrefix(f, prefix) {
+			out = append(out, f)
+		}
+	}
+	sort.Strings(out)
+	return out
+}
+
+func (fs *FS) File(p string) ([]byte, bool) {
+	fs.mu.Lock()
+	defer fs.mu.Unlock()
+	d, ok := fs.FileLocked(cleanPath(p))
+	return append([]byte(nil), d...), ok
+}
+
+func (fs *FS) List(prefix string) []string {
+	fs.mu.Lock()
+	defer fs.mu.Unlock()
+	return fs.ListLocked(prefix)
+}
+
+func (fs *FS) OpenHandles() int {
+	fs.mu.Lock()
+	defer fs.mu.Unlock()
+	return fs.handles
+}
+
+func (fs *FS) OpsLen() int {
+	fs.mu.Lock()
+	defer fs.mu.Unlock()
+	return len(fs.Ops)
+}
+
+func (fs *FS) AddProblemLocked(format string, a ...interface{}) {
+	if len(fs.Problems) < 5 {
+		fs.Problems = append(fs.Problems, fmt.Sprintf(format, a...))
+	}
+}
+
+func (fs *FS) FirstProblem() string {
+	fs.mu.Lock()
+	defer fs.mu.Unlock()
+	if len(fs.Problems) > 0 {
+		return fs.Problems[0]
+	}
+	return ""
+}
+
+// ---- os.* seams (recordings, dump files) -----------------------------------------------------------------------------------
+
+// The os.Create / os.Open seams must return *os.File. Recordings are therefore kept on the real disk
+// inside a per-run sandbox directory, while every path is accounted for in the FS op log (so that
+// path-confinement oracles see them). No fault injection on this path.
+
+func (k *Kernel) installFS() {
+	if k.FS == nil {
+		k.FS = newFS(k)
+	}
+	zzsim.OsCreate = func(name string) (*os.File, error) {
+		p := cleanPath(name)
+		k.FS.mu.Lock()
+		k.FS.logOp(FsOp{Kind: "oscreate", Path: p})
+		k.FS.mu.Unlock()
+		real := k.sandboxPath(p)
+		if err := os.MkdirAll(path.Dir(real), 0o755); err != nil {
+			return nil, err
+		}
+		k.FS.mu.Lock()
+		k.FS.osFiles = append(k.FS.osFiles, p)
+		k.FS.mu.Unlock()
+		return os.Create(real)
+	}
+	zzsim.OsOpen = func(name string) (*os.File, error) {
+		p := cleanPath(name)
+		k.FS.mu.Lock()
+		k.FS.logOp(FsOp{Kind: "osopen", Path: p})
+		k.FS.mu.Unlock()
+		return os.Open(k.sandboxPath(p))
+	}
+	zzsim.OsMkdirAll = func(name string, perm os.FileMode) error {
+		p := cleanPath(name)
+		k.FS.mu.Lock()
+		k.FS.logOp(FsOp{Kind: "osmkdirall", Path: p})
+		k.FS.mu.Unlock()
+		return os.MkdirAll(k.sandboxPath(p), 0o755)
+	}
+}
+
+func (k *Kernel) sandboxPath(clean string) string {
+	if k.sandbox == "" {
+		d, err := os.MkdirTemp("", "simlal-sbx-")
+		if err != nil {
+			panic(err)
+		}
+		k.sandbox = d
+	}
+	return k.sandbox + clean
+}
+
+// SandboxFile reads a file the os.Create seam wrote (recordings).
+func (k *Kernel) SandboxFile(p string) ([]byte, error) {
+	return os.ReadFile(k.sandboxPath(cleanPath(p)))
+}
+
+// OsFiles lists the (virtual) paths created through the os.Create seam.
+func (fs *FS) OsFiles() []string {
+	fs.mu.Lock()
+	defer fs.mu.Unlock()
+	return append([]string(nil), fs.osFiles...)
+}
+
+func (k *Kernel) cleanupSandbox() {
+	if k.sandbox != "" {
+		_ = os.RemoveAll(k.sandbox)
+	}
+}
